@@ -90,9 +90,7 @@ def _tag_element(feature: Feature) -> str:
 def _get_constraints(parent_element: Element, constraints: list[Constraint]) -> None:
     for const in _get_constraints_info(constraints):
         rule = ElementTree.SubElement(parent_element, FeatureIDEReader.TAG_RULE)
-        new_constraint = ElementTree.SubElement(rule, const['ast']['type'])
-        for operand in const['ast']['operands']:
-            _create_elem_constraint(operand, new_constraint)
+        _create_elem_constraint(const['ast'], rule)
 
 
 def _create_elem_constraint(operand: dict[str, Any], parent_element: Element) -> None:
